@@ -181,7 +181,7 @@ class Context:
                 # For arrays, check both properties and array indices
                 try:
                     idx = int(prop)
-                    if 0 <= idx < len(this_val._elements):
+                    if 0 <= idx < len(this_val._elements) and str(idx) == prop:
                         return True
                 except (ValueError, TypeError):
                     pass
